@@ -946,6 +946,55 @@ def _units(tier, seed):
     return units
 
 
+def simplify_value(ctx):
+    """simplify() changes the form of a pose, never its value: X.simplify() and X agree at every point of a small grid, for
+    all four pose classes (the rotation classes have no constant bottom row), single- and multi-valued, and for numeric poses"""
+    import sympy
+    import spatialmath as sm
+    a, b_, x, y, z = sympy.symbols('a b x y z', real=True)
+    objs = {'SO2': [('rot2', h_rot2(a))], 'SE2': [('T2', h_T2(a, x, y))], 'SO3': [('Rx', h_Rx(a)), ('RzRy', h_RzRy(a, b_))],
+            'SE3': [('TRx', h_TRx(a, x, y, z)), ('TRzRy', h_TRzRy(a, b_, x, y, z))]}
+    pts = [{a: 0.3, b_: -0.7, x: 1.5, y: -2.0, z: 0.5}, {a: math.pi / 2, b_: 1e-6, x: 0.0, y: 1e3, z: -1.0}, {a: 0.0, b_: 0.0, x: 0.0, y: 0.0, z: 0.0},
+           {a: -2.5, b_: 3.0, x: 1e-6, y: 0.25, z: 7.0}]
+
+    def ev(M, pt):
+        return np.array([[float(sympy.sympify(e).subs(pt)) for e in row] for row in np.asarray(M, dtype=object)], dtype=float)
+    for cname, lst in objs.items():
+        C = getattr(sm, cname)
+        for on, M in lst:
+            for form in ('X', 'X*X', '[X,X*X]', 'numeric'):
+                cid = 'C16/simplify-value/%s/%s/%s' % (cname, on, form)
+                if not ctx.want(cid):
+                    continue
+                ctx.case(cid, key=cid)
+                P = dict(func=cname + '.simplify', form=form, law='value')
+                try:
+                    X = C(M, check=False)
+                    if form == 'X*X':
+                        X = X * X
+                    elif form == '[X,X*X]':
+                        X = C([X.A, (X * X).A], check=False)
+                    elif form == 'numeric':
+                        X = C(ev(M, pts[0]), check=False)
+                except Exception as e:
+                    ctx.note('simplify_value_prep_failed', '%s %s %s: %s' % (cname, on, form, type(e).__name__))
+                    continue
+                ok, Y = call(lambda: X.simplify())
+                if not ok:
+                    ctx.fail(cid, cname + '.simplify', 'raises:' + type(Y).__name__, P, '%r' % (Y,))
+                    continue
+                if type(Y) is not C or len(Y.data) != len(X.data):
+                    ctx.fail(cid, cname + '.simplify', 'returns:' + type(Y).__name__, P, 'simplify() gave %s with %d values' % (type(Y).__name__, len(getattr(Y, 'data', []))))
+                    continue
+                for k, (mx, my) in enumerate(zip(X.data, Y.data)):
+                    for pi_, pt in enumerate(pts if form != 'numeric' else pts[:1]):
+                        vx, vy = ev(mx, pt), ev(my, pt)
+                        if vx.shape != vy.shape or np.abs(vx - vy).max() > 1e-9 * max(1.0, float(np.abs(vx).max())):
+                            ctx.fail(cid, cname + '.simplify', 'mismatch', dict(P, point=pi_, k=k), 'simplify() changed the value: at point %d element differs by %.3g' %
+                                     (pi_, np.abs(vx - vy).max() if vx.shape == vy.shape else float('nan')))
+                            break
+
+
 def shards(tier, seed):
     units = _units(tier, seed)
     nsh = 64 if tier == 'quick' else 192
@@ -958,6 +1007,7 @@ def shards(tier, seed):
     bins.sort(key=lambda b: -b[0])          # heavy shards first
     out = [tuple(b[1]) for b in bins if b[1]]
     out[0] = (('__reflect__', '', 0, 1),) + out[0]
+    out[-1] = (('__simplify__', '', 0, 1),) + out[-1]
     return out
 
 
@@ -981,5 +1031,8 @@ def run_shard(ctx, shard):
                     ctx.note('tagged_supported_without_descriptor', t)
                 else:
                     ctx.count('tagged_supported_with_descriptor')
+            continue
+        if func == '__simplify__':
+            simplify_value(ctx)
             continue
         run_unit(ctx, cat[(func, fname)], k, n)
